@@ -169,3 +169,13 @@ Theorem C10_trend_strength_index_read_in_range {pw : PW} period (zone : @F NumR)
     let st := steps tsx_next s0 cs in
     exists v, w_index (fst (w_push_t (tz_window st) (c_source c (tz_source st)))) (tz_offset st) = Ok v.
 Proof. exact (tsx_index_in_range period zone offset src c0 cs c). Qed.
+
+(** the MA constructor accepts exactly the documented lengths of each kind: every length of the parameter type except 0 / MAX
+    (HMA, LinReg: below 2 / MAX; RMA: 0; WSMA: 0 and above MAX/2) - any width with an odd MAX (all PeriodType widths), every
+    construction value; the rejected ones return an error (any carrier), the accepted ones a running instance *)
+From Yata Require Import Proofs.Totality5.
+Theorem C10_ma_constructor_acceptance {pw : PW} (c : ma_cfg) (v : @F NumR) : 0 <= ma_period c <= pmax -> pmax / 2 * 2 + 1 = pmax ->
+  is_ok (ma_init c v) = negb (ma_rejects c).
+Proof. exact (ma_init_acceptance c v). Qed.
+Theorem C10_ma_constructor_rejects {pw : PW} {N : Num} (c : ma_cfg) (v : F) : 0 <= ma_period c -> ma_rejects c = true -> is_ok (ma_init c v) = false.
+Proof. exact (ma_init_rejects c v). Qed.
